@@ -585,3 +585,172 @@ package ast
 //@   invariant -1 <= n && n < len(f.Decls)
 //@   invariant forall j in n+1..len(f.Decls) :: isShadowDecl(f.Decls[j])
 //@   decreases n + 1
+//@
+//@ # ---------------------------------------------------------------------------------------------------------
+//@ # C18: Walk / Inspect. The traversal is described by a ghost trace th (a hash of the event sequence so far):
+//@ #   evVisit(v, n)  the call v.Visit(n)            evWalk(w, c)  the complete recursive traversal Walk(w, c)
+//@ #   evList(w, l)   walkList(w, l): Walk(w, e) for every element of l, in order
+//@ # At a call site a recursive Walk is ONE opaque event ([call....] summary); the body clauses ([body....]) say which
+//@ # events a Walk consists of: V(v,node), then — if the visitor returned w != nil — the children in source order as
+//@ # listed in /verif/specs/ast_children.spec, then V(w,nil).
+//@ ghost th int
+//@ ufunc app(h int, e int) int
+//@ ufunc evVisit(v Visitor, n Node) int
+//@ ufunc evWalk(v Visitor, n Node) int
+//@ ufunc evList(v Visitor, l []Node) int
+//@ ufunc visitRes(v Visitor, n Node, h int) Visitor
+//@ mfunc hv(v Visitor, n Node, h int) int := app(h, evVisit(v, n))
+//@ mfunc wv(v Visitor, n Node, h int) Visitor := visitRes(v, n, h)
+//@ mfunc wk(h int, w Visitor, present bool, c Node) int := present ? app(h, evWalk(w, c)) : h
+//@ mfunc wl(h int, w Visitor, l []Node) int := app(h, evList(w, l))
+//@
+//@ interface Visitor.Visit
+//@   option abstract yes
+//@   assigns th
+//@   ensures th == app(old(th), evVisit(this, node)) && w == visitRes(this, node, old(th))
+//@
+//@ # walkList's summary is definitional for evList (ASSUMED; its three-line body is not verified per instantiation)
+//@ trusted walkList
+//@   requires v != nil
+//@   assigns th
+//@   ensures th == app(old(th), evList(v, list))
+//@
+//@ func Walk
+//@   requires v != nil
+//@   assume node != nil && ival(node) != 0 && closedtype(node, Node)
+//@   assume istype(node, *DomainTextLit) && istype(node.(*DomainTextLit).Extra, *StringLitEx) ==> node.(*DomainTextLit).Extra.(*StringLitEx) != nil
+//@   assigns th
+//@   ensures [call.summary] th == app(old(th), evWalk(v, node))
+//@   ensures [body.pruned] wv(v, node, old(th)) == nil ==> th == hv(v, node, old(th))
+//@   ensures [body.FuncDecl] istype(node, *FuncDecl) && wv(v, node, old(th)) != nil ==> th == app(
+//@        wk(( node.(*FuncDecl).Shadow ? hv(v, node, old(th)) :
+//@              wk(wk(wk(wk(hv(v, node, old(th)), wv(v, node, old(th)), node.(*FuncDecl).Doc != nil, Node(node.(*FuncDecl).Doc)),
+//@                       wv(v, node, old(th)), node.(*FuncDecl).Recv != nil, Node(node.(*FuncDecl).Recv)),
+//@                    wv(v, node, old(th)), node.(*FuncDecl).Name != nil, Node(node.(*FuncDecl).Name)),
+//@                 wv(v, node, old(th)), node.(*FuncDecl).Type != nil, Node(node.(*FuncDecl).Type)) ),
+//@           wv(v, node, old(th)), node.(*FuncDecl).Body != nil, Node(node.(*FuncDecl).Body)),
+//@        evVisit(wv(v, node, old(th)), nil))
+//@   ensures [body.File] istype(node, *File) && wv(v, node, old(th)) != nil ==> th == app(
+//@        wl(wk(wk(hv(v, node, old(th)), wv(v, node, old(th)), node.(*File).Doc != nil, Node(node.(*File).Doc)),
+//@              wv(v, node, old(th)), !node.(*File).NoPkgDecl, Node(node.(*File).Name)),
+//@           wv(v, node, old(th)), node.(*File).Decls),
+//@        evVisit(wv(v, node, old(th)), nil))
+//@   assume istype(node, *FuncDecl) && !node.(*FuncDecl).Shadow ==> node.(*FuncDecl).Name != nil && node.(*FuncDecl).Type != nil
+//@   assume istype(node, *File) && !node.(*File).NoPkgDecl ==> node.(*File).Name != nil
+//@ # ---- generated by `go run ./cmd/gen18c` from /verif/specs/ast_children.spec: do not edit by hand ----
+//@   ensures [body.Comment] istype(node, *Comment) && wv(v, node, old(th)) != nil ==> th == app(hv(v, node, old(th)), evVisit(wv(v, node, old(th)), nil))
+//@   ensures [body.CommentGroup] istype(node, *CommentGroup) && wv(v, node, old(th)) != nil ==> th == app(wl(hv(v, node, old(th)), wv(v, node, old(th)), node.(*CommentGroup).List), evVisit(wv(v, node, old(th)), nil))
+//@   ensures [body.Field] istype(node, *Field) && wv(v, node, old(th)) != nil ==> th == app(wk(wk(wk(wl(wk(hv(v, node, old(th)), wv(v, node, old(th)), node.(*Field).Doc != nil, Node(node.(*Field).Doc)), wv(v, node, old(th)), node.(*Field).Names), wv(v, node, old(th)), node.(*Field).Type != nil, node.(*Field).Type), wv(v, node, old(th)), node.(*Field).Tag != nil, Node(node.(*Field).Tag)), wv(v, node, old(th)), node.(*Field).Comment != nil, Node(node.(*Field).Comment)), evVisit(wv(v, node, old(th)), nil))
+//@   ensures [body.FieldList] istype(node, *FieldList) && wv(v, node, old(th)) != nil ==> th == app(wl(hv(v, node, old(th)), wv(v, node, old(th)), node.(*FieldList).List), evVisit(wv(v, node, old(th)), nil))
+//@   ensures [body.BadExpr] istype(node, *BadExpr) && wv(v, node, old(th)) != nil ==> th == app(hv(v, node, old(th)), evVisit(wv(v, node, old(th)), nil))
+//@   ensures [body.Ident] istype(node, *Ident) && wv(v, node, old(th)) != nil ==> th == app(hv(v, node, old(th)), evVisit(wv(v, node, old(th)), nil))
+//@   ensures [body.NumberUnitLit] istype(node, *NumberUnitLit) && wv(v, node, old(th)) != nil ==> th == app(hv(v, node, old(th)), evVisit(wv(v, node, old(th)), nil))
+//@   ensures [body.Ellipsis] istype(node, *Ellipsis) && wv(v, node, old(th)) != nil ==> th == app(wk(hv(v, node, old(th)), wv(v, node, old(th)), node.(*Ellipsis).Elt != nil, node.(*Ellipsis).Elt), evVisit(wv(v, node, old(th)), nil))
+//@   ensures [body.FuncLit] istype(node, *FuncLit) && wv(v, node, old(th)) != nil ==> th == app(wk(wk(hv(v, node, old(th)), wv(v, node, old(th)), node.(*FuncLit).Type != nil, Node(node.(*FuncLit).Type)), wv(v, node, old(th)), node.(*FuncLit).Body != nil, Node(node.(*FuncLit).Body)), evVisit(wv(v, node, old(th)), nil))
+//@   ensures [body.CompositeLit] istype(node, *CompositeLit) && wv(v, node, old(th)) != nil ==> th == app(wl(wk(hv(v, node, old(th)), wv(v, node, old(th)), node.(*CompositeLit).Type != nil, node.(*CompositeLit).Type), wv(v, node, old(th)), node.(*CompositeLit).Elts), evVisit(wv(v, node, old(th)), nil))
+//@   ensures [body.ParenExpr] istype(node, *ParenExpr) && wv(v, node, old(th)) != nil ==> th == app(wk(hv(v, node, old(th)), wv(v, node, old(th)), node.(*ParenExpr).X != nil, node.(*ParenExpr).X), evVisit(wv(v, node, old(th)), nil))
+//@   ensures [body.SelectorExpr] istype(node, *SelectorExpr) && wv(v, node, old(th)) != nil ==> th == app(wk(wk(hv(v, node, old(th)), wv(v, node, old(th)), node.(*SelectorExpr).X != nil, node.(*SelectorExpr).X), wv(v, node, old(th)), node.(*SelectorExpr).Sel != nil, Node(node.(*SelectorExpr).Sel)), evVisit(wv(v, node, old(th)), nil))
+//@   ensures [body.IndexExpr] istype(node, *IndexExpr) && wv(v, node, old(th)) != nil ==> th == app(wk(wk(hv(v, node, old(th)), wv(v, node, old(th)), node.(*IndexExpr).X != nil, node.(*IndexExpr).X), wv(v, node, old(th)), node.(*IndexExpr).Index != nil, node.(*IndexExpr).Index), evVisit(wv(v, node, old(th)), nil))
+//@   ensures [body.IndexListExpr] istype(node, *IndexListExpr) && wv(v, node, old(th)) != nil ==> th == app(wl(wk(hv(v, node, old(th)), wv(v, node, old(th)), node.(*IndexListExpr).X != nil, node.(*IndexListExpr).X), wv(v, node, old(th)), node.(*IndexListExpr).Indices), evVisit(wv(v, node, old(th)), nil))
+//@   ensures [body.SliceExpr] istype(node, *SliceExpr) && wv(v, node, old(th)) != nil ==> th == app(wk(wk(wk(wk(hv(v, node, old(th)), wv(v, node, old(th)), node.(*SliceExpr).X != nil, node.(*SliceExpr).X), wv(v, node, old(th)), node.(*SliceExpr).Low != nil, node.(*SliceExpr).Low), wv(v, node, old(th)), node.(*SliceExpr).High != nil, node.(*SliceExpr).High), wv(v, node, old(th)), node.(*SliceExpr).Max != nil, node.(*SliceExpr).Max), evVisit(wv(v, node, old(th)), nil))
+//@   ensures [body.TypeAssertExpr] istype(node, *TypeAssertExpr) && wv(v, node, old(th)) != nil ==> th == app(wk(wk(hv(v, node, old(th)), wv(v, node, old(th)), node.(*TypeAssertExpr).X != nil, node.(*TypeAssertExpr).X), wv(v, node, old(th)), node.(*TypeAssertExpr).Type != nil, node.(*TypeAssertExpr).Type), evVisit(wv(v, node, old(th)), nil))
+//@   ensures [body.CallExpr] istype(node, *CallExpr) && wv(v, node, old(th)) != nil ==> th == app(wl(wk(hv(v, node, old(th)), wv(v, node, old(th)), node.(*CallExpr).Fun != nil, node.(*CallExpr).Fun), wv(v, node, old(th)), node.(*CallExpr).Args), evVisit(wv(v, node, old(th)), nil))
+//@   ensures [body.StarExpr] istype(node, *StarExpr) && wv(v, node, old(th)) != nil ==> th == app(wk(hv(v, node, old(th)), wv(v, node, old(th)), node.(*StarExpr).X != nil, node.(*StarExpr).X), evVisit(wv(v, node, old(th)), nil))
+//@   ensures [body.UnaryExpr] istype(node, *UnaryExpr) && wv(v, node, old(th)) != nil ==> th == app(wk(hv(v, node, old(th)), wv(v, node, old(th)), node.(*UnaryExpr).X != nil, node.(*UnaryExpr).X), evVisit(wv(v, node, old(th)), nil))
+//@   ensures [body.BinaryExpr] istype(node, *BinaryExpr) && wv(v, node, old(th)) != nil ==> th == app(wk(wk(hv(v, node, old(th)), wv(v, node, old(th)), node.(*BinaryExpr).X != nil, node.(*BinaryExpr).X), wv(v, node, old(th)), node.(*BinaryExpr).Y != nil, node.(*BinaryExpr).Y), evVisit(wv(v, node, old(th)), nil))
+//@   ensures [body.KeyValueExpr] istype(node, *KeyValueExpr) && wv(v, node, old(th)) != nil ==> th == app(wk(wk(hv(v, node, old(th)), wv(v, node, old(th)), node.(*KeyValueExpr).Key != nil, node.(*KeyValueExpr).Key), wv(v, node, old(th)), node.(*KeyValueExpr).Value != nil, node.(*KeyValueExpr).Value), evVisit(wv(v, node, old(th)), nil))
+//@   ensures [body.ArrayType] istype(node, *ArrayType) && wv(v, node, old(th)) != nil ==> th == app(wk(wk(hv(v, node, old(th)), wv(v, node, old(th)), node.(*ArrayType).Len != nil, node.(*ArrayType).Len), wv(v, node, old(th)), node.(*ArrayType).Elt != nil, node.(*ArrayType).Elt), evVisit(wv(v, node, old(th)), nil))
+//@   ensures [body.StructType] istype(node, *StructType) && wv(v, node, old(th)) != nil ==> th == app(wk(hv(v, node, old(th)), wv(v, node, old(th)), node.(*StructType).Fields != nil, Node(node.(*StructType).Fields)), evVisit(wv(v, node, old(th)), nil))
+//@   ensures [body.FuncType] istype(node, *FuncType) && wv(v, node, old(th)) != nil ==> th == app(wk(wk(wk(hv(v, node, old(th)), wv(v, node, old(th)), node.(*FuncType).TypeParams != nil, Node(node.(*FuncType).TypeParams)), wv(v, node, old(th)), node.(*FuncType).Params != nil, Node(node.(*FuncType).Params)), wv(v, node, old(th)), node.(*FuncType).Results != nil, Node(node.(*FuncType).Results)), evVisit(wv(v, node, old(th)), nil))
+//@   ensures [body.InterfaceType] istype(node, *InterfaceType) && wv(v, node, old(th)) != nil ==> th == app(wk(hv(v, node, old(th)), wv(v, node, old(th)), node.(*InterfaceType).Methods != nil, Node(node.(*InterfaceType).Methods)), evVisit(wv(v, node, old(th)), nil))
+//@   ensures [body.MapType] istype(node, *MapType) && wv(v, node, old(th)) != nil ==> th == app(wk(wk(hv(v, node, old(th)), wv(v, node, old(th)), node.(*MapType).Key != nil, node.(*MapType).Key), wv(v, node, old(th)), node.(*MapType).Value != nil, node.(*MapType).Value), evVisit(wv(v, node, old(th)), nil))
+//@   ensures [body.ChanType] istype(node, *ChanType) && wv(v, node, old(th)) != nil ==> th == app(wk(hv(v, node, old(th)), wv(v, node, old(th)), node.(*ChanType).Value != nil, node.(*ChanType).Value), evVisit(wv(v, node, old(th)), nil))
+//@   ensures [body.BadStmt] istype(node, *BadStmt) && wv(v, node, old(th)) != nil ==> th == app(hv(v, node, old(th)), evVisit(wv(v, node, old(th)), nil))
+//@   ensures [body.DeclStmt] istype(node, *DeclStmt) && wv(v, node, old(th)) != nil ==> th == app(wk(hv(v, node, old(th)), wv(v, node, old(th)), node.(*DeclStmt).Decl != nil, node.(*DeclStmt).Decl), evVisit(wv(v, node, old(th)), nil))
+//@   ensures [body.EmptyStmt] istype(node, *EmptyStmt) && wv(v, node, old(th)) != nil ==> th == app(hv(v, node, old(th)), evVisit(wv(v, node, old(th)), nil))
+//@   ensures [body.LabeledStmt] istype(node, *LabeledStmt) && wv(v, node, old(th)) != nil ==> th == app(wk(wk(hv(v, node, old(th)), wv(v, node, old(th)), node.(*LabeledStmt).Label != nil, Node(node.(*LabeledStmt).Label)), wv(v, node, old(th)), node.(*LabeledStmt).Stmt != nil, node.(*LabeledStmt).Stmt), evVisit(wv(v, node, old(th)), nil))
+//@   ensures [body.ExprStmt] istype(node, *ExprStmt) && wv(v, node, old(th)) != nil ==> th == app(wk(hv(v, node, old(th)), wv(v, node, old(th)), node.(*ExprStmt).X != nil, node.(*ExprStmt).X), evVisit(wv(v, node, old(th)), nil))
+//@   ensures [body.SendStmt] istype(node, *SendStmt) && wv(v, node, old(th)) != nil ==> th == app(wl(wk(hv(v, node, old(th)), wv(v, node, old(th)), node.(*SendStmt).Chan != nil, node.(*SendStmt).Chan), wv(v, node, old(th)), node.(*SendStmt).Values), evVisit(wv(v, node, old(th)), nil))
+//@   ensures [body.IncDecStmt] istype(node, *IncDecStmt) && wv(v, node, old(th)) != nil ==> th == app(wk(hv(v, node, old(th)), wv(v, node, old(th)), node.(*IncDecStmt).X != nil, node.(*IncDecStmt).X), evVisit(wv(v, node, old(th)), nil))
+//@   ensures [body.AssignStmt] istype(node, *AssignStmt) && wv(v, node, old(th)) != nil ==> th == app(wl(wl(hv(v, node, old(th)), wv(v, node, old(th)), node.(*AssignStmt).Lhs), wv(v, node, old(th)), node.(*AssignStmt).Rhs), evVisit(wv(v, node, old(th)), nil))
+//@   ensures [body.GoStmt] istype(node, *GoStmt) && wv(v, node, old(th)) != nil ==> th == app(wk(hv(v, node, old(th)), wv(v, node, old(th)), node.(*GoStmt).Call != nil, Node(node.(*GoStmt).Call)), evVisit(wv(v, node, old(th)), nil))
+//@   ensures [body.DeferStmt] istype(node, *DeferStmt) && wv(v, node, old(th)) != nil ==> th == app(wk(hv(v, node, old(th)), wv(v, node, old(th)), node.(*DeferStmt).Call != nil, Node(node.(*DeferStmt).Call)), evVisit(wv(v, node, old(th)), nil))
+//@   ensures [body.ReturnStmt] istype(node, *ReturnStmt) && wv(v, node, old(th)) != nil ==> th == app(wl(hv(v, node, old(th)), wv(v, node, old(th)), node.(*ReturnStmt).Results), evVisit(wv(v, node, old(th)), nil))
+//@   ensures [body.BranchStmt] istype(node, *BranchStmt) && wv(v, node, old(th)) != nil ==> th == app(wk(hv(v, node, old(th)), wv(v, node, old(th)), node.(*BranchStmt).Label != nil, Node(node.(*BranchStmt).Label)), evVisit(wv(v, node, old(th)), nil))
+//@   ensures [body.BlockStmt] istype(node, *BlockStmt) && wv(v, node, old(th)) != nil ==> th == app(wl(hv(v, node, old(th)), wv(v, node, old(th)), node.(*BlockStmt).List), evVisit(wv(v, node, old(th)), nil))
+//@   ensures [body.IfStmt] istype(node, *IfStmt) && wv(v, node, old(th)) != nil ==> th == app(wk(wk(wk(wk(hv(v, node, old(th)), wv(v, node, old(th)), node.(*IfStmt).Init != nil, node.(*IfStmt).Init), wv(v, node, old(th)), node.(*IfStmt).Cond != nil, node.(*IfStmt).Cond), wv(v, node, old(th)), node.(*IfStmt).Body != nil, Node(node.(*IfStmt).Body)), wv(v, node, old(th)), node.(*IfStmt).Else != nil, node.(*IfStmt).Else), evVisit(wv(v, node, old(th)), nil))
+//@   ensures [body.CaseClause] istype(node, *CaseClause) && wv(v, node, old(th)) != nil ==> th == app(wl(wl(hv(v, node, old(th)), wv(v, node, old(th)), node.(*CaseClause).List), wv(v, node, old(th)), node.(*CaseClause).Body), evVisit(wv(v, node, old(th)), nil))
+//@   ensures [body.SwitchStmt] istype(node, *SwitchStmt) && wv(v, node, old(th)) != nil ==> th == app(wk(wk(wk(hv(v, node, old(th)), wv(v, node, old(th)), node.(*SwitchStmt).Init != nil, node.(*SwitchStmt).Init), wv(v, node, old(th)), node.(*SwitchStmt).Tag != nil, node.(*SwitchStmt).Tag), wv(v, node, old(th)), node.(*SwitchStmt).Body != nil, Node(node.(*SwitchStmt).Body)), evVisit(wv(v, node, old(th)), nil))
+//@   ensures [body.TypeSwitchStmt] istype(node, *TypeSwitchStmt) && wv(v, node, old(th)) != nil ==> th == app(wk(wk(wk(hv(v, node, old(th)), wv(v, node, old(th)), node.(*TypeSwitchStmt).Init != nil, node.(*TypeSwitchStmt).Init), wv(v, node, old(th)), node.(*TypeSwitchStmt).Assign != nil, node.(*TypeSwitchStmt).Assign), wv(v, node, old(th)), node.(*TypeSwitchStmt).Body != nil, Node(node.(*TypeSwitchStmt).Body)), evVisit(wv(v, node, old(th)), nil))
+//@   ensures [body.CommClause] istype(node, *CommClause) && wv(v, node, old(th)) != nil ==> th == app(wl(wk(hv(v, node, old(th)), wv(v, node, old(th)), node.(*CommClause).Comm != nil, node.(*CommClause).Comm), wv(v, node, old(th)), node.(*CommClause).Body), evVisit(wv(v, node, old(th)), nil))
+//@   ensures [body.SelectStmt] istype(node, *SelectStmt) && wv(v, node, old(th)) != nil ==> th == app(wk(hv(v, node, old(th)), wv(v, node, old(th)), node.(*SelectStmt).Body != nil, Node(node.(*SelectStmt).Body)), evVisit(wv(v, node, old(th)), nil))
+//@   ensures [body.ForStmt] istype(node, *ForStmt) && wv(v, node, old(th)) != nil ==> th == app(wk(wk(wk(wk(hv(v, node, old(th)), wv(v, node, old(th)), node.(*ForStmt).Init != nil, node.(*ForStmt).Init), wv(v, node, old(th)), node.(*ForStmt).Cond != nil, node.(*ForStmt).Cond), wv(v, node, old(th)), node.(*ForStmt).Post != nil, node.(*ForStmt).Post), wv(v, node, old(th)), node.(*ForStmt).Body != nil, Node(node.(*ForStmt).Body)), evVisit(wv(v, node, old(th)), nil))
+//@   ensures [body.RangeStmt] istype(node, *RangeStmt) && wv(v, node, old(th)) != nil ==> th == app(wk(wk(wk(wk(hv(v, node, old(th)), wv(v, node, old(th)), node.(*RangeStmt).Key != nil, node.(*RangeStmt).Key), wv(v, node, old(th)), node.(*RangeStmt).Value != nil, node.(*RangeStmt).Value), wv(v, node, old(th)), node.(*RangeStmt).X != nil, node.(*RangeStmt).X), wv(v, node, old(th)), node.(*RangeStmt).Body != nil, Node(node.(*RangeStmt).Body)), evVisit(wv(v, node, old(th)), nil))
+//@   ensures [body.ImportSpec] istype(node, *ImportSpec) && wv(v, node, old(th)) != nil ==> th == app(wk(wk(wk(wk(hv(v, node, old(th)), wv(v, node, old(th)), node.(*ImportSpec).Doc != nil, Node(node.(*ImportSpec).Doc)), wv(v, node, old(th)), node.(*ImportSpec).Name != nil, Node(node.(*ImportSpec).Name)), wv(v, node, old(th)), node.(*ImportSpec).Path != nil, Node(node.(*ImportSpec).Path)), wv(v, node, old(th)), node.(*ImportSpec).Comment != nil, Node(node.(*ImportSpec).Comment)), evVisit(wv(v, node, old(th)), nil))
+//@   ensures [body.ValueSpec] istype(node, *ValueSpec) && wv(v, node, old(th)) != nil ==> th == app(wk(wl(wk(wl(wk(hv(v, node, old(th)), wv(v, node, old(th)), node.(*ValueSpec).Doc != nil, Node(node.(*ValueSpec).Doc)), wv(v, node, old(th)), node.(*ValueSpec).Names), wv(v, node, old(th)), node.(*ValueSpec).Type != nil, node.(*ValueSpec).Type), wv(v, node, old(th)), node.(*ValueSpec).Values), wv(v, node, old(th)), node.(*ValueSpec).Comment != nil, Node(node.(*ValueSpec).Comment)), evVisit(wv(v, node, old(th)), nil))
+//@   ensures [body.TypeSpec] istype(node, *TypeSpec) && wv(v, node, old(th)) != nil ==> th == app(wk(wk(wk(wk(wk(hv(v, node, old(th)), wv(v, node, old(th)), node.(*TypeSpec).Doc != nil, Node(node.(*TypeSpec).Doc)), wv(v, node, old(th)), node.(*TypeSpec).Name != nil, Node(node.(*TypeSpec).Name)), wv(v, node, old(th)), node.(*TypeSpec).TypeParams != nil, Node(node.(*TypeSpec).TypeParams)), wv(v, node, old(th)), node.(*TypeSpec).Type != nil, node.(*TypeSpec).Type), wv(v, node, old(th)), node.(*TypeSpec).Comment != nil, Node(node.(*TypeSpec).Comment)), evVisit(wv(v, node, old(th)), nil))
+//@   ensures [body.BadDecl] istype(node, *BadDecl) && wv(v, node, old(th)) != nil ==> th == app(hv(v, node, old(th)), evVisit(wv(v, node, old(th)), nil))
+//@   ensures [body.GenDecl] istype(node, *GenDecl) && wv(v, node, old(th)) != nil ==> th == app(wl(wk(hv(v, node, old(th)), wv(v, node, old(th)), node.(*GenDecl).Doc != nil, Node(node.(*GenDecl).Doc)), wv(v, node, old(th)), node.(*GenDecl).Specs), evVisit(wv(v, node, old(th)), nil))
+//@   ensures [body.SliceLit] istype(node, *SliceLit) && wv(v, node, old(th)) != nil ==> th == app(wl(hv(v, node, old(th)), wv(v, node, old(th)), node.(*SliceLit).Elts), evVisit(wv(v, node, old(th)), nil))
+//@   ensures [body.ElemEllipsis] istype(node, *ElemEllipsis) && wv(v, node, old(th)) != nil ==> th == app(wk(hv(v, node, old(th)), wv(v, node, old(th)), node.(*ElemEllipsis).Elt != nil, node.(*ElemEllipsis).Elt), evVisit(wv(v, node, old(th)), nil))
+//@   ensures [body.LambdaExpr] istype(node, *LambdaExpr) && wv(v, node, old(th)) != nil ==> th == app(wl(wl(hv(v, node, old(th)), wv(v, node, old(th)), node.(*LambdaExpr).Lhs), wv(v, node, old(th)), node.(*LambdaExpr).Rhs), evVisit(wv(v, node, old(th)), nil))
+//@   ensures [body.LambdaExpr2] istype(node, *LambdaExpr2) && wv(v, node, old(th)) != nil ==> th == app(wk(wl(hv(v, node, old(th)), wv(v, node, old(th)), node.(*LambdaExpr2).Lhs), wv(v, node, old(th)), node.(*LambdaExpr2).Body != nil, Node(node.(*LambdaExpr2).Body)), evVisit(wv(v, node, old(th)), nil))
+//@   ensures [body.ForPhrase] istype(node, *ForPhrase) && wv(v, node, old(th)) != nil ==> th == app(wk(wk(wk(wk(wk(hv(v, node, old(th)), wv(v, node, old(th)), node.(*ForPhrase).Key != nil, Node(node.(*ForPhrase).Key)), wv(v, node, old(th)), node.(*ForPhrase).Value != nil, Node(node.(*ForPhrase).Value)), wv(v, node, old(th)), node.(*ForPhrase).X != nil, node.(*ForPhrase).X), wv(v, node, old(th)), node.(*ForPhrase).Init != nil, node.(*ForPhrase).Init), wv(v, node, old(th)), node.(*ForPhrase).Cond != nil, node.(*ForPhrase).Cond), evVisit(wv(v, node, old(th)), nil))
+//@   ensures [body.ComprehensionExpr] istype(node, *ComprehensionExpr) && wv(v, node, old(th)) != nil ==> th == app(wl(wk(hv(v, node, old(th)), wv(v, node, old(th)), node.(*ComprehensionExpr).Elt != nil, node.(*ComprehensionExpr).Elt), wv(v, node, old(th)), node.(*ComprehensionExpr).Fors), evVisit(wv(v, node, old(th)), nil))
+//@   ensures [body.ForPhraseStmt] istype(node, *ForPhraseStmt) && wv(v, node, old(th)) != nil ==> th == app(wk(wk(hv(v, node, old(th)), wv(v, node, old(th)), node.(*ForPhraseStmt).ForPhrase != nil, Node(node.(*ForPhraseStmt).ForPhrase)), wv(v, node, old(th)), node.(*ForPhraseStmt).Body != nil, Node(node.(*ForPhraseStmt).Body)), evVisit(wv(v, node, old(th)), nil))
+//@   ensures [body.RangeExpr] istype(node, *RangeExpr) && wv(v, node, old(th)) != nil ==> th == app(wk(wk(wk(hv(v, node, old(th)), wv(v, node, old(th)), node.(*RangeExpr).First != nil, node.(*RangeExpr).First), wv(v, node, old(th)), node.(*RangeExpr).Last != nil, node.(*RangeExpr).Last), wv(v, node, old(th)), node.(*RangeExpr).Expr3 != nil, node.(*RangeExpr).Expr3), evVisit(wv(v, node, old(th)), nil))
+//@   ensures [body.ErrWrapExpr] istype(node, *ErrWrapExpr) && wv(v, node, old(th)) != nil ==> th == app(wk(wk(hv(v, node, old(th)), wv(v, node, old(th)), node.(*ErrWrapExpr).X != nil, node.(*ErrWrapExpr).X), wv(v, node, old(th)), node.(*ErrWrapExpr).Default != nil, node.(*ErrWrapExpr).Default), evVisit(wv(v, node, old(th)), nil))
+//@   ensures [body.OverloadFuncDecl] istype(node, *OverloadFuncDecl) && wv(v, node, old(th)) != nil ==> th == app(wl(wk(wk(wk(hv(v, node, old(th)), wv(v, node, old(th)), node.(*OverloadFuncDecl).Doc != nil, Node(node.(*OverloadFuncDecl).Doc)), wv(v, node, old(th)), node.(*OverloadFuncDecl).Recv != nil, Node(node.(*OverloadFuncDecl).Recv)), wv(v, node, old(th)), node.(*OverloadFuncDecl).Name != nil, Node(node.(*OverloadFuncDecl).Name)), wv(v, node, old(th)), node.(*OverloadFuncDecl).Funcs), evVisit(wv(v, node, old(th)), nil))
+//@   ensures [body.EnvExpr] istype(node, *EnvExpr) && wv(v, node, old(th)) != nil ==> th == app(wk(hv(v, node, old(th)), wv(v, node, old(th)), node.(*EnvExpr).Name != nil, Node(node.(*EnvExpr).Name)), evVisit(wv(v, node, old(th)), nil))
+//@ # well-formedness assumed of the tree: mandatory children are present
+//@   assume istype(node, *FuncLit) ==> node.(*FuncLit).Type != nil && node.(*FuncLit).Body != nil
+//@   assume istype(node, *ParenExpr) ==> node.(*ParenExpr).X != nil
+//@   assume istype(node, *SelectorExpr) ==> node.(*SelectorExpr).X != nil && node.(*SelectorExpr).Sel != nil
+//@   assume istype(node, *IndexExpr) ==> node.(*IndexExpr).X != nil && node.(*IndexExpr).Index != nil
+//@   assume istype(node, *IndexListExpr) ==> node.(*IndexListExpr).X != nil
+//@   assume istype(node, *SliceExpr) ==> node.(*SliceExpr).X != nil
+//@   assume istype(node, *TypeAssertExpr) ==> node.(*TypeAssertExpr).X != nil
+//@   assume istype(node, *CallExpr) ==> node.(*CallExpr).Fun != nil
+//@   assume istype(node, *StarExpr) ==> node.(*StarExpr).X != nil
+//@   assume istype(node, *UnaryExpr) ==> node.(*UnaryExpr).X != nil
+//@   assume istype(node, *BinaryExpr) ==> node.(*BinaryExpr).X != nil && node.(*BinaryExpr).Y != nil
+//@   assume istype(node, *KeyValueExpr) ==> node.(*KeyValueExpr).Key != nil && node.(*KeyValueExpr).Value != nil
+//@   assume istype(node, *ArrayType) ==> node.(*ArrayType).Elt != nil
+//@   assume istype(node, *StructType) ==> node.(*StructType).Fields != nil
+//@   assume istype(node, *InterfaceType) ==> node.(*InterfaceType).Methods != nil
+//@   assume istype(node, *MapType) ==> node.(*MapType).Key != nil && node.(*MapType).Value != nil
+//@   assume istype(node, *ChanType) ==> node.(*ChanType).Value != nil
+//@   assume istype(node, *DeclStmt) ==> node.(*DeclStmt).Decl != nil
+//@   assume istype(node, *LabeledStmt) ==> node.(*LabeledStmt).Label != nil && node.(*LabeledStmt).Stmt != nil
+//@   assume istype(node, *ExprStmt) ==> node.(*ExprStmt).X != nil
+//@   assume istype(node, *SendStmt) ==> node.(*SendStmt).Chan != nil
+//@   assume istype(node, *IncDecStmt) ==> node.(*IncDecStmt).X != nil
+//@   assume istype(node, *GoStmt) ==> node.(*GoStmt).Call != nil
+//@   assume istype(node, *DeferStmt) ==> node.(*DeferStmt).Call != nil
+//@   assume istype(node, *IfStmt) ==> node.(*IfStmt).Cond != nil && node.(*IfStmt).Body != nil
+//@   assume istype(node, *SwitchStmt) ==> node.(*SwitchStmt).Body != nil
+//@   assume istype(node, *TypeSwitchStmt) ==> node.(*TypeSwitchStmt).Assign != nil && node.(*TypeSwitchStmt).Body != nil
+//@   assume istype(node, *SelectStmt) ==> node.(*SelectStmt).Body != nil
+//@   assume istype(node, *ForStmt) ==> node.(*ForStmt).Body != nil
+//@   assume istype(node, *RangeStmt) ==> node.(*RangeStmt).X != nil && node.(*RangeStmt).Body != nil
+//@   assume istype(node, *ImportSpec) ==> node.(*ImportSpec).Path != nil
+//@   assume istype(node, *TypeSpec) ==> node.(*TypeSpec).Name != nil && node.(*TypeSpec).Type != nil
+//@   assume istype(node, *ElemEllipsis) ==> node.(*ElemEllipsis).Elt != nil
+//@   assume istype(node, *LambdaExpr2) ==> node.(*LambdaExpr2).Body != nil
+//@   assume istype(node, *ForPhrase) ==> node.(*ForPhrase).X != nil
+//@   assume istype(node, *ForPhraseStmt) ==> node.(*ForPhraseStmt).ForPhrase != nil && node.(*ForPhraseStmt).Body != nil
+//@   assume istype(node, *ErrWrapExpr) ==> node.(*ErrWrapExpr).X != nil
+//@   assume istype(node, *OverloadFuncDecl) ==> node.(*OverloadFuncDecl).Name != nil
+//@   assume istype(node, *EnvExpr) ==> node.(*EnvExpr).Name != nil
+//@ loop Walk#3
+//@   invariant v != nil
+//@
+//@ func (inspector).Visit
+//@   option pure_funcs yes
+//@   requires f != nil
+//@   assigns nothing
+//@
+//@ func Inspect
+//@   requires f != nil
+//@   assigns th
+//@   ensures th == app(old(th), evWalk(Visitor(inspector(f)), node))
